@@ -223,6 +223,9 @@ func wStream(sink *Sink, rng *rand.Rand, tier, scratch, prop string) {
 	}
 	deadline := start.Add(budget)
 	n := 0
+	if prop == "C19" {
+		wRestoreProbes(sink, rng, scratch)
+	}
 	// fixed scenarios first (each is one history)
 	for _, sc := range wScenarios(prop, tier, rng) {
 		// the fixed scenarios may use at most 60% of the budget
